@@ -42,7 +42,7 @@ class Sim:
         self.close()
 
     def server(self, tun=None, domain=None, password=None, extra=(), name="srv", ips=(SERVER_IP, SERVER_IP6), password_on_stdin=False,
-               stdin_closed=False, residue=None):
+               stdin_closed=False, residue=None, extra_after=()):
         if tun:
             self.tun_net = tun
         if domain:
@@ -57,6 +57,7 @@ class Sim:
             stdin_data = bytes(self.password) + b"\n"
         elif self.password and b"\0" not in self.password:
             argv += ["-P", self.password]
+        argv += list(extra_after)            # (options written behind the password option on the command line)
         argv += [self.tun_net, self.domain]
         if self.fdmode:
             env = dict(env, SIMNET_FDMODE=self.fdmode)
